@@ -54,6 +54,7 @@ pub struct LinkLog {
 pub struct StateObs {
     pub loop_id: u32,
     pub loop_path: Vec<usize>,
+    pub inner_path: Option<Vec<usize>>,
     pub coord: CoordT,
     pub true_round: u64,
     pub seen_round: u64,
